@@ -278,23 +278,29 @@ def c_param_values():
 
 # ------------------------------------------------------------------ batchrunner.batch_run: the runs list and the results
 def _batch_parts():
+    """runs_list = []; run_id = 0; kwargs_list = _make_model_kwargs(parameters); for iteration in ...: the design is
+    expanded ONCE, before the loop over the iterations (fix C13-4), which is what gen_runs_list's constant `prod` says"""
     fn = _fn(BR, "batch_run")
     body = fn.body
-    if len(body) < 3 or not (isinstance(body[0], ast.Assign) and ast.unparse(body[0].value) == "[]"
-                             and isinstance(body[1], ast.Assign) and ast.unparse(body[1].value) == "0" and isinstance(body[2], ast.For)):
-        raise T.Broken("`runs_list = []; run_id = 0; for ...` expected at the start of batch_run")
+    if len(body) < 4 or not (isinstance(body[0], ast.Assign) and ast.unparse(body[0].value) == "[]"
+                             and isinstance(body[1], ast.Assign) and ast.unparse(body[1].value) == "0"
+                             and isinstance(body[2], ast.Assign) and len(body[2].targets) == 1
+                             and ast.unparse(body[2].value) == "_make_model_kwargs(parameters)"
+                             and isinstance(body[3], ast.For)):
+        raise T.Broken("`runs_list = []; run_id = 0; kwargs_list = _make_model_kwargs(parameters); for ...` expected at the start of batch_run")
     return fn, body, _name(body[0].targets[0], "runs_list"), _name(body[1].targets[0], "run_id")
 
 
 def c_runs_list():
     _, body, runs, rid = _batch_parts()
-    outer = body[2]
+    design = _name(body[2].targets[0], "kwargs_list")
+    outer = body[3]
     if ast.unparse(outer.iter) != "range(iterations)" or len(outer.body) != 1 or not isinstance(outer.body[0], ast.For):
         raise T.Broken("`for iteration in range(iterations): for kwargs in ...` expected")
     it = _name(outer.target, "iteration")
     inner = outer.body[0]
-    if ast.unparse(inner.iter) != "_make_model_kwargs(parameters)":
-        raise T.Broken("`for kwargs in _make_model_kwargs(parameters)` expected")
+    if ast.unparse(inner.iter) != design:
+        raise T.Broken("`for kwargs in kwargs_list` (the design expanded once before the loop) expected")
     kw = _name(inner.target, "kwargs")
     # inner body: appends of 3-tuples over run_id / iteration / kwargs and updates of run_id, in order
     tr = pyexpr.Tr()
@@ -330,7 +336,7 @@ def c_results():
     """the tail of batch_run: the serial loop and the handling of what Pool.imap_unordered yields, translated.
     `order` is the external outcome of imap_unordered: the runs in the order in which their results arrive."""
     _, body, runs, _ = _batch_parts()
-    tail = body[3:]
+    tail = body[4:]
     if len(tail) != 4:
         raise T.Broken(f"expected process_func / results / with tqdm / return after the runs loop, found {len(tail)} statements")
     pf, res, wt, ret = tail
